@@ -8,15 +8,15 @@ open Rx Rx.Gen.Merge
 def absMerge (g : MergeObserver) : St2 := .merge g.observer.isSome g.completed_one
 
 theorem tie_Merge_next (g : MergeObserver) (sd : Side) (v : Val) :
-    (MergeObserver.next g v).map (fun r => (absMerge r.1, r.2)) = some (St2.step (absMerge g) sd (.next v)) := by
+    (MergeObserver.next g v).map (fun r => (absMerge r.1, r.2)) = some (Rs.lift (St2.step (absMerge g) sd (.next v))) := by
   rcases g with ⟨_ | _, c⟩ <;> rs_tie [MergeObserver.next, absMerge, St2.step, St2.guard]
 
 theorem tie_Merge_error (g : MergeObserver) (sd : Side) (e : Err) :
-    (MergeObserver.error g e).map (fun r => (absMerge r.1, r.2)) = some (St2.step (absMerge g) sd (.error e)) := by
+    (MergeObserver.error g e).map (fun r => (absMerge r.1, r.2)) = some (Rs.lift (St2.step (absMerge g) sd (.error e))) := by
   rcases g with ⟨_ | _, c⟩ <;> rs_tie [MergeObserver.error, absMerge, St2.step, St2.guard]
 
 theorem tie_Merge_complete (g : MergeObserver) (sd : Side) :
-    (MergeObserver.complete g).map (fun r => (absMerge r.1, r.2)) = some (St2.step (absMerge g) sd .complete) := by
+    (MergeObserver.complete g).map (fun r => (absMerge r.1, r.2)) = some (Rs.lift (St2.step (absMerge g) sd .complete)) := by
   rcases g with ⟨_ | _, _ | _⟩ <;> rs_tie [MergeObserver.complete, absMerge, St2.step, St2.guard]
 
 
